@@ -3,6 +3,14 @@ import json, os, sys
 HERE = os.path.dirname(os.path.dirname(os.path.abspath(__file__)))
 
 CHECKS = {
+    "C09": ("model_checking", "3 C09",
+            "Product system of three real MetadorContainers (h5py.File, IH5Record, IH5MFRecord) driven in lock-step by the same history (data, attributes, metadata attach/detach, copy with/without metadata, move, require_group); IH5-only patch boundaries and reopen points are deviations placed at every position up to a bound; every transition compares success/failure and the full user view (tree through all listing primitives, attributes, metadata JSON per node, query sets, used schemas). State key = triple of raw dumps.",
+            "Purely differential - no reference model decides; documented IH5 subset (printable-ASCII keys, no links); bounded depth/alphabet.",
+            "explicit-state BFS of the product of three real implementations (differential oracle)"),
+    "C20": ("model_checking", "3 C20",
+            "Container BFS over the harness schema family and every installed schema (minimal instances, plus core.file with a duration and core.table with units); in every state every stored object found by an independent raw scan must validate (jsonschema draft-07) against the JSON Schema embedded in the container, the embedded parent chain and provider record must equal what the plugin system reports, the embedded schema must equal schema_json(), exactly the used schemas are described, and a freshly constructed container (and a reopened one) gives the same description.",
+            "jsonschema Draft7Validator judges validity; instances from a fixed corpus; bounded depth/alphabet.",
+            "explicit-state BFS of the real implementation with per-state instance enumeration"),
     "C07": ("model_checking", "3 C07",
             "BFS over container histories (schema chain aa<bb<cc, sibling dd, auxiliary xx, unknown zz, core.file) on h5py.File and IH5Record; in every state for every node x (schema, version) grid: in/get/[]/keys vs the reference model (exact object for the own schema, parent view for ancestors, refusal of auxiliary/unknown/duplicate), and for every start node x (schema, version): container.query(node=), container.query(), node.metador.query == brute-force scan of the model. Objects of different schema versions coexisting are produced by a process boundary: every write history of an old-environment process is reopened and continued in an upgraded-environment process.",
             "One schema version per environment (documented limitation); get() judged where the environment has a class for the request; any compatible child may serve a parent request (documented); bounded depth/alphabet.",
